@@ -278,7 +278,8 @@ def wrap64 (v : Int) : Nat := (v % (2 ^ 64 : Int)).toNat
 def isTxOp (n : String) : Bool := n == "send" || n == "try_send" || n == "drop_tx"
 def isRxOp (n : String) : Bool := n == "recv" || n == "try_recv" || n == "drop_rx"
 def opsUse (ops : List Op) (pred : String → Bool) (cname : String) : Bool :=
-  ops.any (fun o => pred o.name && o.arg 0 == cname)
+  -- (`pend_then w <op> <chan> …` uses the channel of its inner operation)
+  ops.any fun o => (pred o.name && o.arg 0 == cname) || (o.name == "pend_then" && pred (o.arg 1) && o.arg 2 == cname)
 
 def pushInner (k : Nat) (g : Nat × GuardKind) : P Unit := do
   let l ← K.getL (Heap.localL k)
@@ -942,6 +943,18 @@ def pollOps (ir : IR) (k : Nat) (ops : List Op) : Nat → FutSt → P (Option Fu
         let l ← K.getL (Heap.localL k)
         if l.last == op.arg 0 then pollOps ir k ops fuel { pc := s.pc + op.num 2 + 1 }
         else pollOps ir k ops fuel { pc := s.pc + 1 }
+      else if op.name == "pend_then" then do
+        -- `pend_then w <sync op…>`: a leaf future whose `poll`, when the slot is not ready, stores the waker and then
+        -- performs a (possibly blocking) synchronous operation before returning `Pending`: the task is `Blocked` in
+        -- the middle of a poll with its waker already published — a wake arriving then must still cause a re-poll
+        let r ← Fut.pollLeaf Heap.futL Heap.semL (.pend (ir.objIndex (op.arg 0))) s.stage
+        match r with
+        | .ready res => do
+          logOp ir k s.pc res
+          pollOps ir k ops fuel { pc := s.pc + 1 }
+        | .pending st => do
+          let _ ← execOp ir k s.pc { name := op.arg 1, args := op.args.drop 2 }
+          pure (some { s with stage := st })
       else if isAsyncOp op.name then do
         let r ← Fut.pollLeaf Heap.futL Heap.semL (parseAOp ir (op.name :: op.args)) s.stage
         match r with
